@@ -47,6 +47,10 @@ pub struct TreeSpec {
     /// sub-directories carry extra attribute bits (read-only, hidden, system, archive) besides DIRECTORY
     #[serde(default)]
     pub dir_attrs: bool,
+    /// the formatter allocates upwards from a few clusters below the last one (and wraps to 2), so that pre-existing
+    /// chains run through the highest cluster numbers of the volume
+    #[serde(default)]
+    pub alloc_top: bool,
 }
 
 #[derive(Serialize, Deserialize, Clone, Debug, PartialEq)]
@@ -136,7 +140,7 @@ impl VolSpec {
             backup_boot: 6,
             fsinfo: FsInfoKind::Correct,
             label: false,
-            tree: TreeSpec { seed: 1, dirs: 0, files: 0, depth: 0, max_clusters: 1, lfn: false, deleted: false, vol_label: false, fragment: false, free: None, free_high: false, free_last: false, bad: 0, high_nibble: false, latin1: false, big_dirs: false, full_dirs: None, dir_attrs: false },
+            tree: TreeSpec { seed: 1, dirs: 0, files: 0, depth: 0, max_clusters: 1, lfn: false, deleted: false, vol_label: false, fragment: false, free: None, free_high: false, free_last: false, bad: 0, high_nibble: false, latin1: false, big_dirs: false, full_dirs: None, dir_attrs: false, alloc_top: false },
         }
     }
 }
@@ -623,7 +627,8 @@ pub fn format_volume(img: &mut Image, v: &VolSpec) -> VolOut {
     }
     // --- allocation
     let n = v.clusters + 2;
-    let mut al = Alloc { fat: vec![0u32; n as usize], fat32: v.fat32, n, cursor: 2 };
+    let cursor0 = if v.tree.alloc_top && n > 64 { n - 3 - (crate::rng::fnv(&v.tree.seed.to_le_bytes()) % 12) as u32 } else { 2 };
+    let mut al = Alloc { fat: vec![0u32; n as usize], fat32: v.fat32, n, cursor: cursor0 };
     al.fat[0] = if v.fat32 { 0x0FFF_FFF8 } else { 0xFFF8 };
     al.fat[1] = al.eoc();
     let mut rng = Rng::new(v.tree.seed);
@@ -1050,6 +1055,7 @@ pub fn gen_volspec(rng: &mut Rng, bias: Bias, lba: u32, slot: u8) -> VolSpec {
             big_dirs: rng.chance(1, 3),
             full_dirs: if spc <= 8 && rng.chance(1, if matches!(bias, Bias::Space | Bias::Small) { 3 } else { 6 }) { Some(rng.below(3) as u8) } else { None },
             dir_attrs: rng.chance(1, 3),
+            alloc_top: rng.chance(1, 4),
         },
     }
 }
